@@ -341,6 +341,8 @@ class DnsRrTypePrivate(NumericRangeParsableBase):
 
 @attr.s
 class DnsNameUncompressed(ParsableBase, Serializable):
+    MAX_SIZE = 255
+
     labels = attr.ib(
         validator=attr.validators.deep_iterable(member_validator=attr.validators.instance_of(six.string_types))
     )
@@ -363,13 +365,21 @@ class DnsNameUncompressed(ParsableBase, Serializable):
 
         raise InvalidValue(value, cls, 'labels')
 
+    @staticmethod
+    def _parse_label(label):
+        if '.' in label:  # str() and convert() could not tell it from a label separator
+            raise ValueError(label)
+        six.ensure_binary(label, 'idna')  # a label longer than 63 octets is decoded, but refused by the encoder
+
+        return label
+
     @classmethod
     def _parse(cls, parsable):
         parser = ParserBinary(parsable)
 
         labels = []
         while True:
-            parser.parse_string('label', 1, encoding='idna')
+            parser.parse_string('label', 1, encoding='idna', converter=cls._parse_label)
             label = parser['label']
 
             if not label:
@@ -377,15 +387,23 @@ class DnsNameUncompressed(ParsableBase, Serializable):
 
             labels.append(label)
 
+        if parser.parsed_length > cls.MAX_SIZE:
+            raise InvalidValue(parser.parsed_length, cls, 'labels')
+
         return cls(labels), parser.parsed_length
 
     def compose(self):
         composer = ComposerBinary()
 
         for label in self.labels:
+            if '.' in label:
+                raise InvalidValue(label, type(self), 'labels')
             composer.compose_string(label, 'idna', 1)
 
         composer.compose_numeric(0, 1)
+
+        if composer.composed_length > self.MAX_SIZE:
+            raise InvalidValue(composer.composed_length, type(self), 'labels')
 
         return composer.composed_bytes
 
